@@ -22,6 +22,10 @@ func NewDefineBuiltinMethod(
 	return d
 }
 
+func (d *defineBuiltinMethod) isOwnMethod(methodT *base.T) bool {
+	return methodT.DefinedFrame == d.frame && methodT.DefinedClass == d.targetClass
+}
+
 func (d *defineBuiltinMethod) setupMethodArgs(
 	method string,
 	argTypes []base.T,
@@ -74,6 +78,12 @@ func (d *defineBuiltinMethod) defineBuiltinInstanceMethod(
 
 	existingT := base.GetMethodT(frame, d.targetClass, method, false)
 
+	// only a declaration of this very class is an overload target: a method found
+	// through an already loaded `extends` belongs to the parent
+	if existingT != nil && !d.isOwnMethod(existingT) {
+		existingT = nil
+	}
+
 	if existingT != nil {
 		existingT.Overloads = append(existingT.Overloads, *methodT)
 
@@ -116,6 +126,10 @@ func (d *defineBuiltinMethod) defineBuiltinStaticMethod(
 	)
 
 	existingT := base.GetClassMethodT(frame, d.targetClass, method, false)
+
+	if existingT != nil && !d.isOwnMethod(existingT) {
+		existingT = nil
+	}
 
 	if existingT != nil {
 		existingT.Overloads = append(existingT.Overloads, *methodT)
